@@ -96,9 +96,10 @@ Proof.
 Qed.
 
 (* load; modify the object; clean; flush *)
-Lemma pspec_clean_write s p ca u s1 pr inc l c G :
-  DInv s -> load s p ca u = (s1, pr, inc) -> NoDup (map da l) ->
-  (forall x, find_de x l = G x (find_de x (lents (unix (d_now s)) (d_store s) p))) ->
+Lemma pspec_clean_write_live s p ca u s1 pr inc l c G :
+  DInv s -> load s p ca u = (s1, pr, inc) -> NoDup (map da (filter (lv (unix (d_now s))) l)) ->
+  (forall x, find_de x (filter (lv (unix (d_now s))) l) =
+             olive (unix (d_now s)) (G x (find_de x (lents (unix (d_now s)) (d_store s) p)))) ->
   pspec s (flush s1 (fst (clean (d_now s) (mkDR p l c true))) false) p G c.
 Proof.
   intros HD HL Hn HG. destruct (pspec_load s p ca u s1 pr inc HD HL) as [PL _].
@@ -107,8 +108,18 @@ Proof.
   set (r2 := fst (clean (d_now s) (mkDR p l c true))) in *.
   apply (pspec_put s s1 _ p (daddrs r2) c _ G PL HD' HF Hput).
   - intros e He. apply (Permutation_in _ HP) in He. apply filter_In in He. tauto.
-  - intros x. rewrite (find_de_perm _ _ x HP Hn2). rewrite (find_de_filter _ x l Hn), HG. reflexivity.
+  - intros x. rewrite (find_de_perm _ _ x HP Hn2). apply HG.
   - exact Hpeers.
+Qed.
+
+Lemma pspec_clean_write s p ca u s1 pr inc l c G :
+  DInv s -> load s p ca u = (s1, pr, inc) -> NoDup (map da l) ->
+  (forall x, find_de x l = G x (find_de x (lents (unix (d_now s)) (d_store s) p))) ->
+  pspec s (flush s1 (fst (clean (d_now s) (mkDR p l c true))) false) p G c.
+Proof.
+  intros HD HL Hn HG. apply (pspec_clean_write_live s p ca u s1 pr inc l c G HD HL).
+  - now apply nodup_map_filter.
+  - intros x. rewrite (find_de_filter _ x l Hn), HG. reflexivity.
 Qed.
 
 (* ---- setAddrs -------------------------------------------------------------------------------------- *)
@@ -175,6 +186,38 @@ Proof.
   pose proof (pspec_clean_write s p true false s1 _ _ (cur ++ fresh) (vcert (unix (d_now s)) (d_store s) p)
                 (G_set mode (a0 :: t0) ttl (unix (d_now s + ttl))) HD HL Hn HG) as P.
   destruct (clean (d_now s) _) as [pr2 chg]. exact P.
+Qed.
+
+(* setAddrs(ttlExtend) with a TTL that is not positive: nothing live is added, whatever the batch repeats *)
+Lemma pspec_setaddrs_nonpos s p addrs ttl :
+  DInv s -> ttl <= 0 -> addrs <> [] ->
+  pspec s (d_setaddrs s p addrs ttl TExtend) p (G_set TExtend addrs ttl (unix (d_now s + ttl)))
+        (vcert (unix (d_now s)) (d_store s) p).
+Proof.
+  intros HD Ht Hne. unfold d_setaddrs. destruct addrs as [|a0 t0]; [congruence|].
+  destruct (load s p true false) as [[s1 pr] inc] eqn:HL.
+  destruct (pspec_load s p true false s1 pr inc HD HL) as [PL [Epr Einc]]. subst pr inc. cbn [daddrs dcert].
+  destruct (lents_sorted (unix (d_now s)) (d_store s) p (DI_store s HD)) as [_ HnL].
+  set (L := lents (unix (d_now s)) (d_store s) p) in *. set (U := unix (d_now s)) in *.
+  set (u := unix (d_now s + ttl)).
+  assert (Hu : u <= U) by (apply unix_mono; lia).
+  pose proof (sa_fold TExtend ttl u L (a0 :: t0) L []) as SF.
+  destruct (fold_left _ (a0 :: t0) (L, [])) as [cur fresh] eqn:EF.
+  destruct SF as [H1 [H2 H3]]. cbn [app] in H3.
+  assert (Hnc : NoDup (map da cur)) by (now rewrite H1).
+  assert (Efr : filter (lv U) fresh = []).
+  { rewrite H3. clear H3. induction (filter (fun a => negb (in_rec a L)) (a0 :: t0)) as [|y r IHr]; [reflexivity|].
+    cbn [map filter]. unfold lv at 1. cbn [dexp]. replace (U <? u) with false by (symmetry; apply Z.ltb_ge; lia). exact IHr. }
+  assert (Efl : filter (lv U) (cur ++ fresh) = filter (lv U) cur) by (now rewrite filter_app, Efr, app_nil_r).
+  pose proof (pspec_clean_write_live s p true false s1 _ _ (cur ++ fresh) (vcert U (d_store s) p)
+                (G_set TExtend (a0 :: t0) ttl u) HD HL) as P. fold U in P. rewrite Efl in P.
+  assert (P' := P (nodup_map_filter da (lv U) cur Hnc)). clear P.
+  destruct (clean (d_now s) _) as [pr2 chg]. apply P'. clear P'.
+  intros x. rewrite (find_de_filter _ x cur Hnc), H2. fold L. unfold G_set. rewrite (in_rec_find x L).
+  destruct (find_de x L) as [e|] eqn:F; cbn [option_map].
+  - rewrite andb_true_r. destruct (zmem x (a0 :: t0)); reflexivity.
+  - rewrite andb_false_r. destruct (zmem x (a0 :: t0)); [|reflexivity]. cbn [olive]. unfold lv. cbn [dexp].
+    replace (U <? u) with false by (symmetry; apply Z.ltb_ge; lia). reflexivity.
 Qed.
 
 (* ---- deleteAddrs ----------------------------------------------------------------------------------- *)
